@@ -123,13 +123,13 @@ def run(prop, tier, seed, replay):  # noqa: F811
     # (2) renamed dependency: routing and reply corpora
     rp = routing.pipeline(tier, seed)
     base_r, _ = failing("Trace_Routing", "Trace_Routing.cfg", rp["trace"], rp["progs_path"])
-    sel = [p for p in rp["progs"] if p["id"] in ("S1", "S2", "R1", "R2")]
+    sel = [p for p in rp["progs"] if p["id"] in ("S1", "S2", "R1", "R2", "G1", "A1", "W1", "O6")]
     rrows = [r for r in rp["rows"] if r["id"] in {p["id"] for p in sel}]
     rg = os.path.join(CACHE, "gen", "hyg-routing-" + tier)
     os.makedirs(rg, exist_ok=True)
     rt_path = os.path.join(rg, "progs_rt.ndjson")
     write_ndjson(rt_path, rrows)
-    rtrace, rfailed = build_and_run(rg, gen_routing, sel, rrows, "xshard", 4, rt_path, rep, "routing")
+    rtrace, rfailed = build_and_run(rg, gen_routing, sel, rrows, "xshard", 6, rt_path, rep, "routing")
     ren_r, nre = failing("Trace_Routing", "Trace_Routing.cfg", rtrace, rp["progs_path"])
     ids = {p["id"] for p in sel} - set(rfailed)
     d = {x for x in base_r if x[0] in ids} ^ ren_r
